@@ -174,6 +174,13 @@ class CGraph:
                 raise Exception(err_str)
             # print self
 
+        # the reverse sweep has restored the buffer entries overwritten by
+        # in-place writes; redo the writes so that the forward values are
+        # valid again for further sweeps
+        for f in self.functionList:
+            if is_set(f.setitem):
+                f.__class__.pushforward(f.func, f.args, Fout = f)
+
     def function(self, x_list):
         """ computes the function of a function y = f(x_list), where y is a scalar
         and x_list is a list or tuple of input arguments.
